@@ -1,0 +1,14 @@
+//go:build verif
+
+// Contracts for package grpc (gun), checked by /verif/govc. Comment-only: no code.
+package grpc
+
+// The table of docs/eng/grpc-generator.md ("Mapping table gPRC StatusCode -> HTTP StatusCode"),
+// written with the numeric gRPC status codes of that table.
+//@ spec func grpcHTTP(c int) int = ite(c == 0, 200, ite(c == 1, 499, ite(c == 3, 400, ite(c == 4, 504,
+//@      ite(c == 5, 404, ite(c == 6, 409, ite(c == 7, 403, ite(c == 8, 429, ite(c == 9, 400, ite(c == 10, 409,
+//@      ite(c == 11, 400, ite(c == 12, 501, ite(c == 14, 503, ite(c == 16, 401, 500))))))))))))))
+
+//@ func ConvertGrpcStatus
+//@ props C10
+//@ ensures [documented-table] result == grpcHTTP(status.Convert(err).Code())
